@@ -30,23 +30,26 @@ type Proc struct {
 }
 
 type PCmd struct {
-	Op    string           `json:"op"`
-	Dir   string           `json:"dir,omitempty"`
-	Opts  *StoreOpts       `json:"opts,omitempty"`
-	Fsync bool             `json:"fsync,omitempty"`
-	Docs  []model.Doc      `json:"docs,omitempty"`
-	Wait  bool             `json:"wait,omitempty"`
-	Point string           `json:"point,omitempty"`
-	Arg   string           `json:"arg,omitempty"`
-	N     int              `json:"n,omitempty"`
-	Req   *model.SearchReq `json:"req,omitempty"`
-	Text  string           `json:"text,omitempty"`
-	IDs   []model.ID       `json:"ids,omitempty"`
-	Hints []string         `json:"hints,omitempty"`
-	Bytes uint64           `json:"bytes,omitempty"`
-	Aggs  []AggSpec        `json:"aggs,omitempty"`
-	ID    string           `json:"id,omitempty"`
-	Async bool             `json:"async,omitempty"`
+	Op         string           `json:"op"`
+	Dir        string           `json:"dir,omitempty"`
+	Opts       *StoreOpts       `json:"opts,omitempty"`
+	Fsync      bool             `json:"fsync,omitempty"`
+	Docs       []model.Doc      `json:"docs,omitempty"`
+	Wait       bool             `json:"wait,omitempty"`
+	Point      string           `json:"point,omitempty"`
+	Arg        string           `json:"arg,omitempty"`
+	N          int              `json:"n,omitempty"`
+	Req        *model.SearchReq `json:"req,omitempty"`
+	Text       string           `json:"text,omitempty"`
+	IDs        []model.ID       `json:"ids,omitempty"`
+	Hints      []string         `json:"hints,omitempty"`
+	Bytes      uint64           `json:"bytes,omitempty"`
+	Aggs       []AggSpec        `json:"aggs,omitempty"`
+	ID         string           `json:"id,omitempty"`
+	Async      bool             `json:"async,omitempty"`
+	Docs2      []model.Doc      `json:"docs2,omitempty"`
+	DelayPoint string           `json:"delay_point,omitempty"`
+	DelayMs    int              `json:"delay_ms,omitempty"`
 }
 
 type PFrac struct {
